@@ -34,6 +34,8 @@ theorem loopCount_eq_min (stack : List Frame) (max : Nat) : loopCount stack max 
   simp [loops, Frame.retainsContext]
 @[simp] theorem loops_loop (st : List Frame) : loops (.loop :: st) = 1 + loops st := by
   simp [loops, Frame.retainsContext]
+@[simp] theorem loops_trap (st : List Frame) : loops (.trap :: st) = 0 := by
+  simp [loops, Frame.retainsContext]
 @[simp] theorem loops_subshell (st : List Frame) : loops (.subshell :: st) = 0 := by
   simp [loops, Frame.retainsContext]
 
